@@ -1115,6 +1115,27 @@ def _drive_custom(eng, st, a_iter, clo_call, step):
     return results
 
 
+def m_str_is_empty(eng, st, call):
+    """str::is_empty / String::is_empty: the same fact as `== ""` (and as `len() == 0`)"""
+    v = deref_all(eng, st, call.args[0])
+    if isinstance(v, StrV) and v.text is not None:
+        return [(st, z3.BoolVal(len(v.text) == 0))]
+    if isinstance(v, (SeqV, MapV)):
+        return None
+    try:
+        b = val_eq(eng, v, StrV(text=''))
+        n = len_of(eng, st, v)
+    except MirError:
+        return None
+    if z3.is_expr(b) and z3.is_expr(n):
+        eng.assume(st, b == (n == 0))
+    return [(st, b)]
+
+
+STD_MODELS += [
+    (R(r'^(core::)?str::<impl str>::is_empty$|^(std::string::|alloc::string::)?String::is_empty$'), m_str_is_empty),
+]
+
 def m_map_or(eng, st, call):
     """Option/Result::map_or(default, f) and map_or_else(default_fn, f)"""
     name = method_name(call.fn)
